@@ -323,7 +323,7 @@ func genC03(t *rapid.T) c03Case {
 		c.Sample = rapid.IntRange(0, ns-1).Draw(t, "sample")
 	} else {
 		c.Base = "shape"
-		c.Shape = gen.DrawShape(t, gen.ShapeOpts{MaxXform: 3})
+		c.Shape = gen.DrawShape(t, gen.ShapeOpts{MaxXform: 3, AllowReplaceQuotes: true})
 		c.Recs = gen.DrawRecs(t, c.Shape, "r", 0, 4, gen.ValueOpts{})
 	}
 	nm := rapid.SampledFrom([]int{0, 0, 0, 1, 1, 1, 1, 1, 2, 2, 3, 4}).Draw(t, "nmuts")
